@@ -39,7 +39,7 @@ OtherObjs == { [what |-> "box", unit |-> u] : u \in {"angstrom", "nm"} } \cup { 
 DInit == cfg \in Cfgs /\ store = <<>> /\ dh = <<>>
 Objects == IF DMode = "value" THEN { ValueObj(sh, k, u) : sh \in Shapes, k \in Kinds, u \in Units }
            ELSE IF DMode = "system" THEN
-                { SystemObj(n, nt, sym, mas, pr, pu, bu) : n \in {1, 3}, nt \in {1, 2}, sym \in {"all", "none", "first"}, mas \in {"all", "none"},
+                { SystemObj(n, nt, sym, mas, pr, pu, bu) : n \in {1, 3}, nt \in {1, 2}, sym \in {"all", "none", "first"}, mas \in {"all", "none", "notfirst"},
                   pr \in PropSets, pu \in {"angstrom", "scaled", "nm"}, bu \in {"angstrom", "nm"} }
            ELSE OtherObjs
 Write == Len(dh) = 0 /\ \E ob \in Objects : \E enc \in Encs :
